@@ -131,6 +131,11 @@ ev2::loops_blob lp_from_json(const json& j);
 json ow_to_json(const ev2::overview_waveform_data_blob& b);
 ev2::overview_waveform_data_blob ow_from_json(const json& j);
 
+struct harness_error : std::runtime_error
+{
+    using std::runtime_error::runtime_error;
+};
+
 // ---------------------------------------------------------------- state
 struct State
 {
@@ -154,30 +159,35 @@ struct State
         paths.clear();
         ids.clear();
         last_snapshot.reset();
+        guard = false;
     }
     dj::database& D()
     {
-        if (!db) throw std::runtime_error("harness: no database");
+        if (!db) throw harness_error("harness: no database");
         return *db;
     }
-    dj::track& T(const std::string& h)
-    {
-        auto it = tracks.find(h);
-        if (it == tracks.end()) throw std::runtime_error("harness: no track handle " + h);
-        return it->second;
-    }
-    dj::crate& C(const std::string& h)
-    {
-        auto it = crates.find(h);
-        if (it == crates.end()) throw std::runtime_error("harness: no crate handle " + h);
-        return it->second;
-    }
+    // With `guard` on, an op that names a handle of a removed entity is refused by the harness
+    // (the documented contract forbids every call except copy/assign/destroy/id()/is_valid() on it).
+    bool guard = false;
+    dj::track& T(const std::string& h);
+    dj::crate& C(const std::string& h);
 };
 
-struct harness_error : std::runtime_error
+
+inline dj::track& State::T(const std::string& h)
 {
-    using std::runtime_error::runtime_error;
-};
+    auto it = tracks.find(h);
+    if (it == tracks.end()) throw harness_error("harness: no track handle " + h);
+    if (guard && !it->second.is_valid()) throw harness_error("harness: guard: handle of a removed track " + h);
+    return it->second;
+}
+inline dj::crate& State::C(const std::string& h)
+{
+    auto it = crates.find(h);
+    if (it == crates.end()) throw harness_error("harness: no crate handle " + h);
+    if (guard && !it->second.is_valid()) throw harness_error("harness: guard: handle of a removed crate " + h);
+    return it->second;
+}
 
 std::optional<djinterop::engine::engine_schema> schema_by_name(const std::string& n);
 
